@@ -261,6 +261,11 @@ def define_text(rng):
     lines = []
     depth = 0
     for s in steps:
+        if rng.random() < 0.06:
+            # U+FEFF is an ordinary (non-blank) character wherever it
+            # stands - also as the first character of a fragment
+            lines.append(rng.choice(["\ufeffk v", "\ufeff# c", "\ufeff",
+                                     "\ufeff<sec/>", "\ufeff%define z 1"]))
         lines.append("  " * depth + c05.step_line(s))
         r = rng.random()
         if r < 0.2 and depth < 2:
@@ -295,6 +300,12 @@ def run_shard(ctx):
             root = p.tree
             if rewrites.definify(rng, root):
                 text = texts.render(root)
+        if rng.random() < 0.08:
+            ls = text.split("\n")
+            i = rng.randrange(len(ls))
+            ls[i] = "\ufeff" + ls[i].lstrip()
+            text = "\n".join(ls)
+            ctx.res.count("texts_with_u_feff_line")
         compare(ctx, p.schema, "family", text, {"model": p.model}, rng,
                 dirpath, ",".join(sorted(f["kind"] for f in p.faults)))
     # texts with %import lines (C12's generated component packages): a
